@@ -279,14 +279,36 @@ proof fn lemma_header_reads_back(h: Seq<char>, rest: Seq<char>)
 }
 //@]
 
+//@[ C12 C06 ghost: the type section of the emitted text
+/// somewhere in the text: the terminal enum's attribute block immediately followed by `pub enum <name> {`, its variants,
+/// the closing brace, a blank line, and then the nonterminal type definitions
+spec fn emits_type_section(text: Seq<char>, b: &SrcBuilder) -> bool {
+    exists|pre: Seq<char>, vtext: Seq<char>, post: Seq<char>| #[trigger] type_section_at(text, b, pre, vtext, post)
+}
+spec fn type_section_at(text: Seq<char>, b: &SrcBuilder, pre: Seq<char>, vtext: Seq<char>, post: Seq<char>) -> bool {
+    text == pre + (attrs_src(b.file.terminal_enum.attributes@) + ("pub enum "@ + (b.file.terminal_enum.name@ + (" {\n"@ + (vtext + ("\n}\n\n"@
+        + (join_spec(b.file.nonterminals@.map_values(|nt: Nonterminal| typedef_src(b, nt)), "\n\n"@) + post)))))))
+}
+proof fn lemma_type_section(b: &SrcBuilder, a0: Seq<char>, a1: Seq<char>, a2: Seq<char>, y: Seq<char>, vtext: Seq<char>, post: Seq<char>)
+    requires y == attrs_src(b.file.terminal_enum.attributes@) + ("pub enum "@ + (b.file.terminal_enum.name@ + (" {\n"@ + (vtext + ("\n}\n\n"@
+        + (join_spec(b.file.nonterminals@.map_values(|nt: Nonterminal| typedef_src(b, nt)), "\n\n"@) + post))))))
+    ensures emits_type_section(a0 + (a1 + (a2 + y)), b)
+{
+    assert(a0 + (a1 + (a2 + y)) =~= ((a0 + a1) + a2) + y);
+    assert(type_section_at(a0 + (a1 + (a2 + y)), b, (a0 + a1) + a2, vtext, post));
+}
+//@]
+
 impl SrcBuilder<'_> {
     //@[ proof: solver budget for the 93-placeholder template
     #[verifier::rlimit(80)]
     //@]
     fn file_src(&self) -> /*@[*/(r: /*@]*/RustSrc/*@[*/)/*@]*/
-        //@[ C15 C07 file_src: get_grammar_hash reads the SHA-256 of the exact grammar source back from the emitted text
+        //@[ C15 C07 C12 C06 file_src: get_grammar_hash reads the SHA-256 of the exact grammar source back from the emitted text
         requires self.table.terminals@.len() < usize::MAX, self.file.terminal_enum.variants@.len() < usize::MAX,
+            self.terminal_enum_name@ == self.file.terminal_enum.name@,
         ensures spec_hash(r.0@) == Some(sha256_hex(self.grammar_src@)),
+            emits_type_section(r.0@, self),
         //@]
     {
         let grammar_sha256 = /*@{ T13_sha256*//*@- sha256::digest *//*@|*/crate::vx_fmt::__vx_sha256_hex/*@}*/(self.grammar_src);
@@ -348,6 +370,13 @@ impl SrcBuilder<'_> {
             let h = grammar_sha256@;
             assert(no_nl(h));
             assert forall|rest: Seq<char>| spec_hash(#[trigger] (hdr0() + (h + (hdr1() + rest)))) == Some(h) by { lemma_header_reads_back(h, rest); }
+            let d1 = terminal_enum_attributes@;
+            let d2 = terminal_enum_name@;
+            let d4 = nonterminal_type_defs@;
+            assert forall|vtext: Seq<char>, post: Seq<char>|
+                emits_type_section(#[trigger] (hdr0() + (h + (hdr1() + (d1 + ("pub enum "@ + (d2 + (" {\n"@ + (vtext + ("\n}\n\n"@ + (d4 + post)))))))))), self) by {
+                lemma_type_section(self, hdr0(), h, hdr1(), d1 + ("pub enum "@ + (d2 + (" {\n"@ + (vtext + ("\n}\n\n"@ + (d4 + post)))))), vtext, post);
+            }
         }
         //@]
         RustSrc(format!(
@@ -532,14 +561,15 @@ impl {node_enum_name} {{
             .join("\n")
     }
 
-    //@[ O: iterator adapters / string building outside the supported subset (body not verified, no contract)
-    #[verifier::external_body]
-    //@]
-    fn get_nonterminal_type_defs_src(&self) -> String {
-        self.file
+    fn get_nonterminal_type_defs_src(&self) -> /*@[*/(r: /*@]*/String/*@[*/)/*@]*/
+        //@[ C12 C06 get_nonterminal_type_defs_src: one definition per nonterminal in declaration order, separated by blank lines; each is its attribute block immediately followed by `pub struct <name>` / `pub enum <name> {`
+        ensures r@ == join_spec(self.file.nonterminals@.map_values(|nt: Nonterminal| typedef_src(self, nt)), "\n\n"@),
+        //@]
+    {
+        /*@[*/let __vx_defs = /*@]*/self.file
             .nonterminals
             .iter()
-            .map(|nonterminal| match nonterminal {
+            .map(|nonterminal/*@[*/: &Nonterminal/*@]*/| /*@[*/-> (o: String) ensures o@ == typedef_src(self, *nonterminal) { /*@]*/match nonterminal {
                 Nonterminal::Struct(s) => {
                     let attributes =
                         get_attributes_src_with_newline_after_each_attribute(&s.attributes);
@@ -557,10 +587,10 @@ impl {node_enum_name} {{
                     let attributes =
                         get_attributes_src_with_newline_after_each_attribute(&e.attributes);
                     let nonterminal_name = &e.name.name;
-                    let variants_indent_1 = e
+                    let variants_indent_1 = /*@[*/{ let __vx_v = /*@]*/e
                         .variants
                         .iter()
-                        .map(|variant| {
+                        .map(|variant/*@[*/: &EnumVariant/*@]*/| /*@[*/-> (o2: String) ensures o2@ == variant_line(self, *variant) /*@]*/{
                             let variant_name = &variant.name.name;
                             let variant_fieldset = self.get_fieldset_src(
                                 &variant.fieldset,
@@ -572,19 +602,27 @@ impl {node_enum_name} {{
                             format!("{variant_name}{variant_fieldset},")
                         })
                         .collect::<Vec<_>>()
-                        .join("\n")
+                        /*@{ T17_join1*//*@- .join( *//*@|*/; proof { assert(str_views(__vx_v@) =~= e.variants@.map_values(|v: EnumVariant| variant_line(self, v))); } __vx_join(&__vx_v, /*@}*/"\n")/*@[*/ }/*@]*/
                         .indent(1);
                     format!("{attributes}pub enum {nonterminal_name} {{\n{variants_indent_1}\n}}")
                 }
-            })
-            .collect::<Vec<_>>()
-            .join("\n\n")
+            }/*@[*/ }/*@]*/)
+            .collect::<Vec<_>>()/*@[*/;
+        proof {
+            assert(str_views(__vx_defs@) =~= self.file.nonterminals@.map_values(|nt: Nonterminal| typedef_src(self, nt)));
+        }
+        __vx_join(&__vx_defs, /*@]*/
+            /*@{ T17_join2*//*@- .join( *//*@|*//*@}*/"\n\n")
     }
 
-    //@[ O: iterator adapters / string building outside the supported subset (body not verified, no contract)
+    //@[ O: iterator adapters / string building outside the supported subset (body not verified; the result is only named, not described)
     #[verifier::external_body]
     //@]
-    fn get_fieldset_src(&self, fieldset: &Fieldset, options: GetFieldsetSrcOptions) -> String {
+    fn get_fieldset_src(&self, fieldset: &Fieldset, options: GetFieldsetSrcOptions) -> /*@[*/(r: /*@]*/String/*@[*/)/*@]*/
+        //@[ O contract: a function of the builder, the fieldset and the two options
+        ensures r@ == fieldset_src_of(self, *fieldset, options.use_semicolon_if_unnamed, options.use_pub_on_named_fields),
+        //@]
+    {
         match fieldset {
             Fieldset::Empty => self.get_empty_fieldset_src(options),
             Fieldset::Named(fieldset) => self.get_named_fieldset_src(fieldset, options),
@@ -1267,8 +1305,29 @@ fn create_unique_identifier(preferred_name: &str, used: &mut HashSet<String>) ->
     }
 }
 
+//@[ C12 C06 ghost: the emitted definition of one nonterminal (right-nested like the format! contracts)
+pub uninterp spec fn fieldset_src_of(b: &SrcBuilder, fs: Fieldset, use_semicolon: bool, use_pub: bool) -> Seq<char>;
+spec fn variant_line(b: &SrcBuilder, v: EnumVariant) -> Seq<char> {
+    v.name.name@ + (fieldset_src_of(b, v.fieldset, false, false) + ","@)
+}
+spec fn variants_block(b: &SrcBuilder, vs: Seq<EnumVariant>) -> Seq<char> {
+    join_spec(vs.map_values(|v: EnumVariant| variant_line(b, v)), "\n"@)
+}
+spec fn typedef_src(b: &SrcBuilder, nt: Nonterminal) -> Seq<char> {
+    match nt {
+        Nonterminal::Struct(s) => attrs_src(s.attributes@) + ("pub struct "@ + (s.name.name@ + fieldset_src_of(b, s.fieldset, true, true))),
+        Nonterminal::Enum(e) => attrs_src(e.attributes@) + ("pub enum "@ + (e.name.name@ + (" {\n"@ + (indent_of_seq(variants_block(b, e.variants@), 1) + "\n}"@)))),
+    }
+}
+//@]
+
+
 trait Indent {
-    fn indent(&self, indent: usize) -> String;
+    fn indent(&self, indent: usize) -> /*@[*/(r: /*@]*/String/*@[*/)/*@]*/
+        //@[ O contract: a function of the text and the level
+        ensures r@ == indent_of(self, indent)
+        //@]
+    ;
 }
 
 impl Indent for str {
@@ -1313,7 +1372,16 @@ fn pascal_to_snake_case(s: &str) -> String {
     out
 }
 
-fn get_attributes_src_with_newline_after_each_attribute(attributes: &[Attribute]) -> String {
-    attributes.iter().map(|a| format!("{}\n", &a.src)).collect()
+//@[ C12 ghost: the attribute block printed before a type definition: every attribute's source text followed by a line break, in order
+pub open spec fn attr_line(a: Attribute) -> Seq<char> { a.src@ + "\n"@ }
+pub open spec fn attrs_src(attrs: Seq<Attribute>) -> Seq<char> { flatten(attrs.map_values(|a: Attribute| attr_line(a))) }
+//@]
+
+fn get_attributes_src_with_newline_after_each_attribute(attributes: &[Attribute]) -> /*@[*/(r: /*@]*/String/*@[*/)/*@]*/
+    //@[ C12 get_attributes_src_with_newline_after_each_attribute: every attribute verbatim, one per line, in declaration order
+    ensures r@ == attrs_src(attributes@),
+    //@]
+{
+    /*@{ T17_open*//*@- attributes.iter().map( *//*@|*/__vx_map_concat(attributes, /*@}*/|a/*@[*/: &Attribute/*@]*/| /*@[*/-> (o: String) ensures o@ == attr_line(*a) { /*@]*/format!("{}\n", &a.src)/*@[*/ }/*@]*//*@{ T17_close*//*@- ).collect() *//*@|*/)/*@}*/
 }
 
